@@ -147,6 +147,8 @@ func c18(w *core.World, r *core.Report) {
 	c11(w, r)
 	r.Rule("R13.6", "a source transaction the filters emptied is skipped, not handed to the unit builder (which refuses an empty unit and stops the replay on a transaction that spans no slot at all) (shared with C13)", 4)
 	ruleTxnBuffer(w, r)
+	r.Rule("R18.13", "the cluster client's slot table gives every slot of a reported range an owner, both ends included: a single-slot unit is never refused for want of a node", 1)
+	ruleSlotTableCoversRangeEnds(w, r)
 }
 
 func extractOf(call ssa.Value, idx int) ssa.Value {
